@@ -51,6 +51,10 @@ def make_battery(limit_per_root=7):
     out.append(("CodeActionResponse", {"id": 1, "jsonrpc": "2.0", "result": [{"title": "t", "command": {"title": "t", "command": "c"}}, {"title": "t", "command": "c"}]}))
     out.append(("ServerCapabilities", {"monikerProvider": {"documentSelector": None}, "textDocumentSync": 1, "hoverProvider": {"workDoneProgress": True}}))
     out.append(("Hover", {"contents": ["doc", {"language": "python", "value": "x"}]}))
+    # unknown properties (ignored by every converter except one the user built with forbid_extra_keys=True)
+    out.append(("Position", {"line": 1, "character": 2, "zzExtra": 1}))
+    out.append(("Hover", {"contents": "doc", "range": {"start": {"line": 0, "character": 0, "zz": None}, "end": {"line": 0, "character": 1}}, "zzExtra": {"a": 1}}))
+    out.append(("DefinitionResponse", {"id": 1, "jsonrpc": "2.0", "zzExtra": 1, "result": {"uri": "file:///a", "zz": 1, "range": {"start": {"line": 0, "character": 0}, "end": {"line": 1, "character": 2}}}}))
     # invalid inputs (must raise on every converter)
     out.append(("Position", {"line": -1, "character": 0}))
     out.append(("Position", {"line": 0}))
@@ -120,6 +124,11 @@ class Harness:
             loc = S.converter_local_functions(f)
             self.audit[os.path.basename(f)] = {k: (v[0], v[1]) for k, v in loc.items()}
             self.local_ranges[f] = [(v[2], v[3]) for v in loc.values() if v[0]]
+        # the generated module: only functions that write module-level state are scheduled
+        self.types_file = os.path.realpath(os.path.join(pkg, "types.py"))
+        writers = S.state_writing_functions(self.types_file)
+        self.local_ranges_types = [(a, b) for a, b, _, _ in writers]
+        self.audit["types.py"] = {"state_writing_functions": [[nm, why] for _, _, nm, why in writers]}
         self.mods = [m for n, m in sys.modules.items() if n.startswith("lsprotocol.") and not n.endswith(".types")]
         self.battery = [b for b in make_battery(3) if b[0] in ("SelectionRange", "Position", "Location", "DefinitionResponse")]
         # values that go through hooks whose *registration* reads resolved field types
@@ -203,6 +212,9 @@ class Harness:
             line = code.co_firstlineno
             local = any(a <= line <= b for a, b in self.local_ranges.get(real, ()))
             r = 0 if local else True
+        elif real == self.types_file and self.local_ranges_types:
+            line = code.co_firstlineno
+            r = True if any(a <= line <= b for a, b in self.local_ranges_types) else 0
         else:
             r = 0
         self._cache[code] = r
@@ -306,72 +318,96 @@ def _sched_worker(args):
 
 # ---------------------------------------------------------------------------------------- histories
 
-EVENTS = ["F", "U", "Ud", "R0", "Rl", "H0", "Hl"]
+EVENTS = ["F", "U", "Ud", "Uf", "R0", "Rl", "H0", "Hl", "D0", "Dl"]
+
+
+def _user_hooks(lsp, marker="file:///USER-HOOK"):
+    def st_hook(o, t):
+        return lsp.Location(uri=marker, range=lsp.Range(start=lsp.Position(line=0, character=0), end=lsp.Position(line=0, character=0)))
+
+    def un_hook(o):
+        return "USER-RANGE " + repr(o)
+    return st_hook, un_hook
 
 
 def _history_child(hist, battery_spec):
     """Runs in a freshly forked child: nothing has called get_converter in this process yet."""
+    import gc
     impl.setup_paths()
     import cattrs
     import lsprotocol.types as lsp
     from lsprotocol import converters
     battery = battery_spec
-    convs = []
+    convs = []          # dropped converters leave None behind (indexes stay stable)
+    kinds = []          # "plain" | "forbid"
     hooked = set()
     problems = []
-    marker = "file:///USER-HOOK"
+    st_hook, un_hook = _user_hooks(lsp)
 
-    def user_hook(o, t):
-        return lsp.Location(uri=marker, range=lsp.Range(start=lsp.Position(line=0, character=0), end=lsp.Position(line=0, character=0)))
+    def alive():
+        return [i for i, c in enumerate(convs) if c is not None]
 
-    ref_obs = battery["reference"]
-    hooked_obs = battery["hooked"]
     for step, ev in enumerate(hist):
         try:
             if ev == "F":
                 convs.append(converters.get_converter())
+                kinds.append("plain")
             elif ev == "U":
                 convs.append(converters.get_converter(cattrs.Converter()))
+                kinds.append("plain")
             elif ev == "Ud":
                 convs.append(converters.get_converter(cattrs.Converter(detailed_validation=False)))
-            elif ev in ("R0", "Rl"):
-                i = 0 if ev == "R0" else len(convs) - 1
-                r = converters.get_converter(convs[i])
-                if r is not convs[i]:
-                    problems.append((step, ev, "get_converter(c) returned a different converter object"))
-            elif ev in ("H0", "Hl"):
-                i = 0 if ev == "H0" else len(convs) - 1
-                convs[i].register_structure_hook(lsp.Location, user_hook)
-                hooked.add(i)
+                kinds.append("plain")
+            elif ev == "Uf":
+                convs.append(converters.get_converter(cattrs.Converter(forbid_extra_keys=True)))
+                kinds.append("forbid")
+            elif ev in ("R0", "Rl", "H0", "Hl", "D0", "Dl"):
+                al = alive()
+                if not al:
+                    continue
+                i = al[0] if ev[1] == "0" else al[-1]
+                if ev[0] == "R":
+                    r = converters.get_converter(convs[i])
+                    if r is not convs[i]:
+                        problems.append((step, ev, "get_converter(c) returned a different converter object"))
+                elif ev[0] == "H":
+                    convs[i].register_structure_hook(lsp.Location, st_hook)
+                    convs[i].register_unstructure_hook(lsp.Range, un_hook)
+                    hooked.add(i)
+                else:
+                    convs[i] = None
+                    gc.collect()
         except Exception as e:  # noqa: BLE001
             problems.append((step, ev, "creation raised %s: %s" % (type(e).__name__, str(e)[:100])))
             break
         for i, c in enumerate(convs):
+            if c is None:
+                continue
             obs = observe(c, battery["values"], lsp)
-            want = hooked_obs if i in hooked else ref_obs
+            want = battery["references"][(kinds[i], i in hooked)]
             if obs != want:
                 idx = [k for k, (a, b) in enumerate(zip(obs, want)) if a != b][:3]
-                problems.append((step, ev, "converter %d (%s) differs from the %s observation at battery items %s: got %s" % (
-                    i, "user-hooked" if i in hooked else "plain", "hooked reference" if i in hooked else "reference", idx,
-                    [obs[k][:80] for k in idx])))
+                problems.append((step, ev, "converter %d (%s%s) differs from the %s observation at battery items %s: got %s" % (
+                    i, "user-hooked" if i in hooked else "plain", ", forbid_extra_keys" if kinds[i] == "forbid" else "",
+                    "hooked reference" if i in hooked else "reference", idx, [obs[k][:80] for k in idx])))
                 break
         if problems:
             break
     return problems
 
 
-def _reference_child(values):
+def _reference_child(values, kind, hooked):
+    """One converter of the given kind alone in a fresh process (optionally with the user hooks)."""
     impl.setup_paths()
+    import cattrs
     import lsprotocol.types as lsp
     from lsprotocol import converters
-    c = converters.get_converter()
-    ref_obs = observe(c, values, lsp)
-    marker = "file:///USER-HOOK"
-    c2 = converters.get_converter()
-    c2.register_structure_hook(lsp.Location, lambda o, t: lsp.Location(uri=marker, range=lsp.Range(
-        start=lsp.Position(line=0, character=0), end=lsp.Position(line=0, character=0))))
-    hooked = observe(c2, values, lsp)
-    return ref_obs, hooked
+    c = converters.get_converter(cattrs.Converter(forbid_extra_keys=True)) if kind == "forbid" else converters.get_converter()
+    if hooked:
+        st_hook, un_hook = _user_hooks(lsp)
+        c.register_structure_hook(lsp.Location, st_hook)
+        c.register_unstructure_hook(lsp.Range, un_hook)
+    return observe(c, values, lsp)
 
 
 def _in_child(fn, *args):
@@ -421,12 +457,12 @@ def enabled_histories(maxlen):
         if len(h) == maxlen:
             return
         for ev in EVENTS:
-            if ev in ("F", "U", "Ud"):
+            if ev in ("F", "U", "Ud", "Uf"):
                 rec(h + [ev], nconv + 1)
             elif nconv >= 1:
-                if ev in ("Rl", "Hl") and nconv == 1:
-                    continue       # same as R0 / H0 when there is one converter
-                rec(h + [ev], nconv)
+                if ev in ("Rl", "Hl", "Dl") and nconv == 1:
+                    continue       # same as R0 / H0 / D0 when there is one converter
+                rec(h + [ev], nconv - 1 if ev[0] == "D" else nconv)
     rec([], 0)
     return out
 
@@ -489,18 +525,32 @@ def run(ctx):
         total_exec += c["executions"]
     # ---------------- histories
     values = make_battery(5)
-    st, r = _in_child(_reference_child, values)
+    refs = {}
+    st, r = "ok", None
+    for kind in ("plain", "forbid"):
+        for hk in (False, True):
+            st, r = _in_child(_reference_child, values, kind, hk)
+            if st != "ok":
+                break
+            refs[(kind, hk)] = r
+        if st != "ok":
+            break
     hist_stats = {"histories": 0, "max_length": 0, "battery_items": len(values)}
     if st != "ok":
         res.add(Violation(PROP, "reference-fails", "get_converter", "a single sequential get_converter() + battery fails: %s" % r, {"engine": "HIST", "input": None}))
     else:
-        ref_obs, hooked_obs = r
-        if ref_obs == hooked_obs:
+        if refs[("plain", False)] == refs[("plain", True)]:
             res.add(Violation(PROP, "selfcheck", "HIST", "the user hook is not visible in the battery (vacuous H events)", {"engine": "HIST", "input": None}))
-        battery = {"values": values, "reference": ref_obs, "hooked": hooked_obs}
+        if refs[("plain", False)] == refs[("forbid", False)]:
+            res.add(Violation(PROP, "selfcheck", "HIST", "forbid_extra_keys is not visible in the battery (vacuous Uf events)", {"engine": "HIST", "input": None}))
+        battery = {"values": values, "references": refs}
         maxlen = 4 if ctx.thorough else 3
         hists = enabled_histories(maxlen)
         hists.append(["F"] * 100)
+        # converters that are dropped and collected while new ones are created (address reuse)
+        hists.append(["U", "D0"] * 30 + ["U"])
+        hists.append(["Ud", "D0", "U", "Dl", "F", "D0"] * 8 + ["Ud"])
+        hists.append(["F", "U", "Dl"] * 20 + ["U"])
         hist_stats["histories"] = len(hists)
         hist_stats["max_length"] = maxlen
         chunks = [hists[i::W] for i in range(W)]
@@ -526,8 +576,9 @@ def run(ctx):
         "rule": "schedules: N real threads each doing get_converter()+battery as first use, cooperative scheduler on settrace line events of the "
                 "package modules (functions audited as converter-local run atomically), every schedule with at most the stated number of "
                 "preemptions (iterative context bounding); histories: every enabled sequence over {F fresh, U user converter, Ud user converter "
-                "without detailed validation, R re-register on first/last, H user hook for Location on first/last} up to the stated length, "
-                "each in a freshly forked process, plus F^100; after every event every converter is compared on the battery with the reference "
+                "without detailed validation, Uf user converter with forbid_extra_keys, R re-register on first/last, H user structure hook for Location + "
+                "unstructure hook for Range on first/last, D drop first/last and collect} up to the stated length, "
+                "each in a freshly forked process, plus F^100 and three drop-and-recreate histories of 50-60 events; after every event every converter is compared on the battery with the reference "
                 "(user-hooked converters with the hooked reference, incl. below union hooks)",
         "schedules": sched_cov, "histories": hist_stats, "converter_local_audit": audit,
         "exhaustive": not lost and not capped,
@@ -553,7 +604,11 @@ def replay(ctx, doc):
         return str(bad) if bad or s.deadlock else None
     if doc.get("history"):
         values = make_battery(5)
-        st, r = _in_child(_reference_child, values)
-        st2, problems = _in_child(_history_child, doc["history"], {"values": values, "reference": r[0], "hooked": r[1]})
+        refs = {}
+        for kind in ("plain", "forbid"):
+            for hk in (False, True):
+                st, r = _in_child(_reference_child, values, kind, hk)
+                refs[(kind, hk)] = r
+        st2, problems = _in_child(_history_child, doc["history"], {"values": values, "references": refs})
         return str(problems) if problems else None
     return None
